@@ -363,6 +363,86 @@ fn concurrent_lookup(kind: usize, lookup_end: usize, second: usize, out: &mut Pa
     }
 }
 
+/// Acknowledgements on a slow network: after the node has seen replies slower than its initial
+/// 500 ms timeout, its request timeout has adapted (read from the snapshot); a put whose `n`
+/// storers all acknowledge after 80 % of *that* timeout - later than the round-trip estimate,
+/// earlier than expiry - must report Ok.
+fn adaptive_timeout(kind: usize, n: usize, slow_ms: u64, out: &mut Partial) {
+    let mut w = World::new(Chooser::default_run());
+    let (req, target) = request(kind);
+    let ids = crate::epnet::ranked_ids(&target, n);
+    let mut net = EpNet::new(&mut w, &ids);
+    let eps = net.addrs();
+    let a = w.add_node(NodeCfg::new([9, 9, 9, 9], 7000).bootstrap(&eps[..1]).id([0x21; 20]));
+    let mut phase = 0u8; // 0: slow lookups, 1: the put (fast lookup answers, slow acknowledgements)
+    let mut ack_latency = 0u64;
+    let mut acks_sent = 0usize;
+    let pump = |w: &mut World, net: &mut EpNet, ev: &Event, phase: u8, ack_latency: u64, acks_sent: &mut usize| {
+        if let Event::EndpointRecv { ep, dgram } = ev {
+            let i = net.index_of(*ep).expect("ep");
+            let Some(q) = krpc::Krpc::parse(&dgram.bytes) else { return };
+            if !q.is_query() {
+                return;
+            }
+            let is_put = matches!(q.q.as_deref(), Some("put") | Some("announce_peer") | Some("announce_signed_peer"));
+            if let Some(bytes) = net.honest_reply(i, &q, dgram.from, w.now) {
+                let from = net.eps[i].addr;
+                let lat = if is_put {
+                    *acks_sent += 1;
+                    ack_latency
+                } else if phase == 0 {
+                    slow_ms * MS
+                } else {
+                    DEFAULT_LATENCY
+                };
+                w.send_raw_with_latency(from, dgram.from, bytes, lat);
+            }
+        }
+    };
+    // slow phase: the bootstrap and three lookups of other targets, every answer takes `slow_ms`
+    for k in 0..3u8 {
+        let c = w.call_find_node(a, [0x90 + k; 20].into());
+        let h = w.now + 60 * SEC;
+        w.run_until(h, |w, ev| {
+            pump(w, &mut net, ev, phase, ack_latency, &mut acks_sent);
+            w.result(c).is_some()
+        });
+    }
+    w.run_for(5 * SEC);
+    let snap = w.snapshot(a);
+    let timeout = snap.socket.request_timeout.as_nanos() as u64;
+    let rtt = snap.socket.estimated_rtt.as_nanos() as u64;
+    phase = 1;
+    ack_latency = timeout / 10 * 8;
+    let put = w.call_put_raw(a, req, None);
+    let h = w.now + 60 * SEC;
+    w.run_until(h, |w, ev| {
+        pump(w, &mut net, ev, phase, ack_latency, &mut acks_sent);
+        w.result(put).is_some()
+    });
+    out.add("executions", 1);
+    out.add("adaptive_timeout_scenarios", 1);
+    out.add("transitions", w.steps);
+    out.gauge_max("adapted_request_timeout_ms", timeout / MS);
+    if timeout > 600 * MS {
+        out.add("adaptive_timeout_scenarios_with_adapted_timeout", 1);
+    }
+    let replay = json!({"part": "adaptive-timeout", "kind": kind, "n": n, "slow_ms": slow_ms});
+    match w.result(put) {
+        Some(CallResult::Put(Ok(_))) => out.add("ok_results", 1),
+        Some(CallResult::Put(Err(e))) if acks_sent > 0 => out.violation(
+            format!("adaptive-timeout/error-despite-acks/{}", KINDS[kind]),
+            format!("{} put to {n} storers after replies of {slow_ms} ms: request timeout {} ms (round-trip estimate {} ms); all {acks_sent} storers acknowledged after {} ms, before expiry, but the put reports {e:?}", KINDS[kind], timeout / MS, rtt / MS, ack_latency / MS),
+            replay.clone(),
+        ),
+        Some(CallResult::Put(Err(_))) => out.add("non_instances_put_not_sent", 1),
+        other => out.violation(format!("adaptive-timeout/no-result/{}", KINDS[kind]), format!("{other:?}"), replay.clone()),
+    }
+    if w.any_actor_panicked().is_some() {
+        out.violation(format!("actor-died/adaptive-timeout/{}", KINDS[kind]), "actor died".to_string(), replay);
+    }
+}
+
 fn beh_name(b: &Beh) -> String {
     match b {
         Beh::NoToken => "no-token".into(),
@@ -720,6 +800,17 @@ fn run(tier: Tier, shard: usize, nshards: usize, _seed: u64) -> Partial {
             overlap(pair, Some(at), &mut out);
         }
     }
+    // ---- acknowledgements on a slow network (adapted request timeout)
+    for kind in 0..4 {
+        for n in [1usize, 3, 4, 5, 7, 8, 9, 16] {
+            for slow_ms in [700u64, 1500] {
+                idx += 1;
+                if idx % nshards == shard {
+                    adaptive_timeout(kind, n, slow_ms, &mut out);
+                }
+            }
+        }
+    }
     // ---- a put in its store phase and another lookup of the same target
     for kind in 0..4 {
         for lookup_end in 0..4 {
@@ -755,6 +846,9 @@ fn replay(v: &Value) -> Result<Option<Violation>, String> {
         extra_mix(v.get("kind").and_then(|x| x.as_u64()).ok_or("kind")? as usize, &mut out);
     } else if v.get("part").and_then(|p| p.as_str()) == Some("overlap") {
         overlap(v.get("pair").and_then(|x| x.as_u64()).ok_or("pair")? as usize, Some(v.get("at_event").and_then(|x| x.as_u64()).ok_or("at_event")? as u32), &mut out);
+    } else if v.get("part").and_then(|p| p.as_str()) == Some("adaptive-timeout") {
+        let g = |k: &str| v.get(k).and_then(|x| x.as_u64());
+        adaptive_timeout(g("kind").ok_or("kind")? as usize, g("n").ok_or("n")? as usize, g("slow_ms").ok_or("slow_ms")?, &mut out);
     } else if v.get("part").and_then(|p| p.as_str()) == Some("concurrent-lookup") {
         let g = |k: &str| v.get(k).and_then(|x| x.as_u64()).map(|x| x as usize);
         concurrent_lookup(g("kind").ok_or("kind")?, g("lookup_end").ok_or("lookup_end")?, g("second").ok_or("second")?, &mut out);
